@@ -102,6 +102,28 @@ def roundtrip_case(ctx, dirty):
 # conductor-level: write_status / get_status after every poll
 
 
+class frozen_clock:
+    """`datetime.now()` inside executiongraph.py returns one fixed instant"""
+
+    def __enter__(self):
+        import datetime as _dt
+        import maestrowf.datastructures.core.executiongraph as egmod
+        self.mod = egmod
+        self.saved = egmod.datetime
+        instant = _dt.datetime.now()
+
+        class Frozen(_dt.datetime):
+            @classmethod
+            def now(cls, tz=None):
+                return instant
+        egmod.datetime = Frozen
+        return self
+
+    def __exit__(self, *exc):
+        self.mod.datetime = self.saved
+        return False
+
+
 def expected_rows(g, n):
     rows = []
     for key in g.status_subtree:
@@ -150,11 +172,14 @@ def status_case(ctx, dirty_params):
             if ev[0] == "local" and ev[3] == "ok":
                 ledger_job[S.sidx(ev[1])] = ev[4]
         polls += 1
-        # freeze the clock-dependent columns: they are compared as written
-        g.write_status(root)
-        with open(os.path.join(root, "status.csv"), newline="") as f:
-            content = f.read()
-        rows = expected_rows(g, n)
+        # the duration columns of a running step are computed from the clock:
+        # the clock is frozen while the table is written and the expected rows
+        # are read off the records, so that both see the same instant
+        with frozen_clock():
+            g.write_status(root)
+            with open(os.path.join(root, "status.csv"), newline="") as f:
+                content = f.read()
+            rows = expected_rows(g, n)
         # (a) writer text
         lines.append("csv.write header=%s rows=%s" % (
             ",".join(hx(h) for h in HEADER), ";".join(",".join(hx(f) for f in r) for r in rows)))
